@@ -1,6 +1,7 @@
 import Fips204.Props.C09c
 import Fips204.Lemmas.SpecEncode
 import Fips204.Lemmas.KeyRoundTrip
+import Fips204.Lemmas.GenKeys
 import Fips204.Props.C10c
 import Fips204.Spec.MlDsa
 /-!
@@ -12,6 +13,10 @@ From the crate-level round trip (`pkEncode_pkDecode`, `Lemmas/KeyRoundTrip`) and
 * `pkEncode_after_pkDecode_as_written` — for each parameter set and every byte string of public-key length,
   `pkEncode(pkDecode(pk)) = pk` on `Spec/*` alone: every public-key string is the canonical encoding of what it decodes to (in particular no
   two strings decode to the same `(rho, t1)`);
+* `pkDecode_after_pkEncode_as_written` — `pkDecode(pkEncode(rho, t1)) = (rho, t1)` for every 32-byte `rho` (of bytes) and every `t1` with `k`
+  polynomials of 256 coefficients in `[0, 1023]`: with the previous item, Algorithms 22 / 23 are mutually inverse bijections;
+* `skDecode_after_skEncode_as_written` — `skDecode(skEncode(rho, K, tr, s1, s2, t0))` returns the six components for byte strings `rho`, `K`, `tr` of
+  32, 32, 64 bytes and vectors in range: with the next item, Algorithms 24 / 25 are mutually inverse on in-range keys;
 * `skEncode_after_skDecode_as_written` — for each parameter set and every byte string of private-key length whose `s1`, `s2` sections decode into
   `[-eta, eta]` (the strings deserialisation accepts, C10c), `skEncode(skDecode(sk)) = sk` on `Spec/*` alone.
 -/
@@ -70,5 +75,102 @@ theorem skEncode_after_skDecode_as_written (p : ParamSet) (hp : p ∈ [ml_dsa_44
     ⟨s1, r1⟩ ⟨s2, r2⟩ ⟨s3, r0⟩
   rw [h24] at hre
   exact ok_inj hre
+
+theorem pkDecode_after_pkEncode_as_written (p : ParamSet) (hp : p ∈ [ml_dsa_44, ml_dsa_65, ml_dsa_87])
+    (rho : List Nat) (t1 : List Poly) (hr : rho.length = 32) (hrb : ∀ x ∈ rho, x < 256) (ht : VecIn p.k 0 1023 t1) :
+    Spec.pkDecode p.k (Spec.pkEncode rho t1) = (rho, t1) := by
+  have hcfg := pk_config_ok p hp
+  have h22 := pkEncode_is_algorithm_22 .release p rho t1 hr hcfg ht.1 ht.2
+  obtain ⟨hl, hdec⟩ := pkDecode_pkEncode .release p hcfg rho t1 hr ht _ h22
+  -- the encoding consists of bytes: rho by hypothesis, the rest by construction
+  have hbytes : ∀ x ∈ Spec.pkEncode rho t1, x < 256 := by
+    intro x hx
+    unfold Spec.pkEncode at hx
+    rcases List.mem_append.mp hx with hx | hx
+    · exact hrb x hx
+    · obtain ⟨blk, hblk, hx'⟩ := List.mem_flatten.mp hx
+      obtain ⟨w, _, rfl⟩ := List.mem_map.mp hblk
+      unfold Spec.simpleBitPack at hx'
+      refine bitsToBytes_lt _ _ (fun d hd => ?_) x hx'
+      obtain ⟨b, hb, hd'⟩ := List.mem_flatten.mp hd
+      obtain ⟨wi, _, rfl⟩ := List.mem_map.mp hb
+      exact integerToBits_bits _ _ d hd'
+  obtain ⟨d, hd, hspec⟩ := pkDecode_is_algorithm_23 .release p _ hbytes (by rw [hl, hcfg]) hcfg
+  rw [hdec] at hd
+  have e := ok_inj hd
+  simp only [Option.some.injEq] at e
+  subst e
+  exact hspec.symm
+
+theorem spec_bitPack_bytes (c : Nat) (b : Int) (w : List Int) : ∀ x ∈ Spec.bitPack c b w, x < 256 := by
+  unfold Spec.bitPack
+  refine bitsToBytes_lt _ _ (fun d hd => ?_)
+  obtain ⟨blk, hblk, hd'⟩ := List.mem_flatten.mp hd
+  obtain ⟨wi, _, rfl⟩ := List.mem_map.mp hblk
+  exact integerToBits_bits _ _ d hd'
+
+theorem spec_packs_bytes (c : Nat) (b : Int) (v : List (List Int)) : ∀ x ∈ (v.map (fun w => Spec.bitPack c b w)).flatten, x < 256 := by
+  intro x hx
+  obtain ⟨blk, hblk, hx'⟩ := List.mem_flatten.mp hx
+  obtain ⟨w, _, rfl⟩ := List.mem_map.mp hblk
+  exact spec_bitPack_bytes c b w x hx'
+
+theorem skDecode_after_skEncode_as_written (p : ParamSet) (hp : p ∈ [ml_dsa_44, ml_dsa_65, ml_dsa_87])
+    (rho key tr : List Nat) (s1 s2 t0 : List Poly)
+    (hr : rho.length = 32) (hk : key.length = 32) (ht : tr.length = 64)
+    (hrb : ∀ x ∈ rho, x < 256) (hkb : ∀ x ∈ key, x < 256) (htb : ∀ x ∈ tr, x < 256)
+    (h1 : VecIn p.l (-p.eta) p.eta s1) (h2 : VecIn p.k (-p.eta) p.eta s2) (h0 : VecIn p.k (-4095) 4096 t0) :
+    Spec.skDecode (Spec.bitlen (2 * p.eta)) p.eta p.k p.l (Spec.skEncode (Spec.bitlen (2 * p.eta)) p.eta rho key tr s1 s2 t0) =
+      (rho, key, tr, s1, s2, t0) := by
+  obtain ⟨bl, he, hbl, hcfg⟩ := Fips204.Props.C10.sk_config .release p hp
+  have hbs : Spec.bitlen (2 * p.eta) = bl := by
+    have b3 : bitLen .release (2 * 2) = .ok 3 := of_toOption _ _ (by decide +kernel)
+    have b4 : bitLen .release (2 * 4) = .ok 4 := of_toOption _ _ (by decide +kernel)
+    rcases he with h | h <;> rw [h] at hbl ⊢
+    · rw [b3] at hbl; have := ok_inj hbl; subst this; decide
+    · rw [b4] at hbl; have := ok_inj hbl; subst this; decide
+  rw [hbs]
+  have htop : top = 4096 := by decide
+  have h0' : VecIn p.k (-(top - 1)) top t0 := by rw [htop]; exact h0
+  let s : SkParts := { rho := rho, key := key, tr := tr, s1 := s1, s2 := s2, t0 := t0 }
+  have h24 := skEncode_is_algorithm_24 .release p he bl hbl hcfg s hr hk ht h1 h2 h0'
+  obtain ⟨out, hout, holen⟩ := skEncode_ok .release p he bl hbl hcfg s hr hk ht h1 h2 h0'
+  rw [h24] at hout
+  have eo := ok_inj hout
+  have hdec := skDecode_skEncode .release p he bl hbl hcfg s hr hk ht h1 h2 h0' _ h24
+  have hbytes : ∀ x ∈ Spec.skEncode bl p.eta rho key tr s1 s2 t0, x < 256 := by
+    intro x hx
+    unfold Spec.skEncode at hx
+    simp only [List.mem_append] at hx
+    rcases hx with ((((hx | hx) | hx) | hx) | hx) | hx
+    · exact hrb x hx
+    · exact hkb x hx
+    · exact htb x hx
+    · exact spec_packs_bytes _ _ _ x hx
+    · exact spec_packs_bytes _ _ _ x hx
+    · exact spec_packs_bytes _ _ _ x hx
+  have hlen : (Spec.skEncode bl p.eta rho key tr s1 s2 t0).length = 128 + 32 * ((p.k + p.l) * bl + D.toNat * p.k) := by
+    have : (Spec.skEncode bl p.eta s.rho s.key s.tr s.s1 s.s2 s.t0).length = out.length := by rw [eo]
+    rw [holen] at this
+    rw [← hcfg]
+    exact this
+  have h25 := skDecode_is_algorithm_25 .release p _ hbytes he bl hbl hlen (by rw [hlen, hcfg])
+  rw [hdec] at h25
+  have e := ok_inj h25
+  simp only [] at e
+  generalize Spec.skDecode bl p.eta p.k p.l (Spec.skEncode bl p.eta rho key tr s1 s2 t0) = d at e ⊢
+  obtain ⟨a, b, c, d1, d2, d3⟩ := d
+  simp only [] at e
+  split at e
+  · simp only [Option.some.injEq] at e
+    have f1 := congrArg SkParts.rho e
+    have f2 := congrArg SkParts.key e
+    have f3 := congrArg SkParts.tr e
+    have f4 := congrArg SkParts.s1 e
+    have f5 := congrArg SkParts.s2 e
+    have f6 := congrArg SkParts.t0 e
+    simp only [s] at f1 f2 f3 f4 f5 f6
+    rw [f1, f2, f3, f4, f5, f6]
+  · cases e
 
 end Fips204.Props.C09
